@@ -41,7 +41,7 @@ CHECKS = {
          '54 (quick) / 550 (thorough) grammars x ~100 configurations each, three interpreter optimisation levels as separate processes, the shipped command-line tool on JSON files; agreement between configurations follows from agreement of each with the single specification value (exact carriers; certified least fixed points for recursive grammars).',
          'Trusted: TLC, Semantics.tla, projections. j_precompute=True is defective for three structural classes of rules (edge sharing no node with the others, edge-less node, repeated attachment): recorded findings with spec-evaluated signatures; everything outside those classes is still gated, and a family of grammars built to lie outside them (unit rules with internal nodes / permuted attachments) makes every j_precompute disagreement there a violation.', 'DESIGN.md#c11'),
  'C12': ('builder', 'TLC builder machine (MC_Builder) generates construction schedules (-simulate; R3 Confluent) -> replayed on the real API on re-ordered / renamed / value-permuted presentations with explicit or implicit ids -> sum_products -> TLC judge (Trace_Present): observed = meaning(presented) and, model-level, meaning(presented) = renamed/permuted meaning(original)',
-         '280 (quick) / 14 000 (thorough) TLC-generated construction schedules over presentations of seeded grammars: order of add_node/add_edge/add_rule/add_domain/add_factor/add_edge_label calls, rule/node/edge order, label renaming, domain-value permutation with factor axes, explicit (unique or rule-local) vs implicit ids, productions written twice; 4 semirings, 3 methods, 2 dtypes; every result must equal the exact meaning of the presented grammar, which TLC proves to be the permuted meaning of the original.',
+         '280 (quick) / 4 500 (thorough) TLC-generated construction schedules over presentations of seeded grammars: order of add_node/add_edge/add_rule/add_domain/add_factor/add_edge_label calls, rule/node/edge order, label renaming, domain-value permutation with factor axes, explicit (unique or rule-local) vs implicit ids, productions written twice; 4 semirings, 3 methods, 2 dtypes; every result must equal the exact meaning of the presented grammar, which TLC proves to be the permuted meaning of the original.',
          'Trusted: TLC, Semantics.tla, the presentation generator (its correctness is itself checked by the model-level theorem: a wrong permutation makes the check fail as machinery error, exit 2). Non-recursive targets; gradients / viterbi weights under re-presentation are exercised through the C03/C04 oracles.', 'DESIGN.md#c12'),
  'C13': ('axes', 'seeded pairs of typed patterns (independent, re-patterned copies, one perturbed cell, differing defaults, NaN, clone/freshen/densified, views of the tensor itself that share its physical axes: T / transpose / permute of symmetric and asymmetric matrices and 3-way tensors) and MultiTensors with absent blocks -> equal / allclose (tolerance grid) / equal_default / allclose_default / MultiTensor.allclose -> TLC judge (Trace_Tensor) decides each answer on the denotations PtDense computed from the structures',
          'Every answer is recomputed by TLC from the two structures alone: dense equality, torch allclose rule |a-b| <= atol + rtol|b| in exact integer arithmetic (values are multiples of 1/4, tolerances dyadic), NaN per flag, symmetry of equal, absent MultiTensor block = zero.',
@@ -84,7 +84,7 @@ ADDENDA = {
  'C11': ('; gradients (Real and Log) of recursive grid grammars with an unproductive nonterminal per interpreter level; Log runs at magnitude -280 for every method',
          ''),
  'C12': ('; RECURSIVE grid grammars (least fixed point proved by TLC) under re-ordered rules, re-ordered edges inside rules, renumbered nodes and re-ordered label registration, judged by Trace_Recursive against the one certificate',
-         ' 64 (quick) / 900 (thorough) presentations of certified recursive grammars.'),
+         ' 64 (quick) / 500 (thorough) presentations of certified recursive grammars.'),
  'C13': ('; NaN defaults (as .grad uses) against re-patterned and densified copies that store the NaNs, with equal_nan, in both directions',
          ''),
  'C14': ('; weights held as permuted views (vaxes a non-identity permutation of paxes, non-square shapes)',
